@@ -64,7 +64,13 @@ func genReconf(r *rng) *config.PikeConfig {
 		c.Compresses = append(c.Compresses, config.CompressConfig{Name: n, Levels: lv})
 	}
 	for _, n := range pickSome(r, rcCaches, 1) {
-		c.Caches = append(c.Caches, config.CacheConfig{Name: n, Size: 10 + r.intn(90), HitForPass: r.pick([]string{"5m", "30s"})})
+		cc := config.CacheConfig{Name: n, Size: 10 + r.intn(90), HitForPass: r.pick([]string{"5m", "30s"})}
+		if n == "c2" {
+			// this cache names a store that cannot be opened (a path below a character device): it works from memory
+			// only, and like every cache it survives the updates that keep its name
+			cc.Store = "badger:///dev/null/verif-reconf"
+		}
+		c.Caches = append(c.Caches, cc)
 	}
 	for _, n := range pickSome(r, rcUps, 1) {
 		c.Upstreams = append(c.Upstreams, config.UpstreamConfig{Name: n, Policy: r.pick([]string{"first", "random", "roundRobin"}), AcceptEncoding: r.pick([]string{"", "gzip", "br"}),
@@ -221,7 +227,13 @@ func suiteReconf(r *rng, n int) {
 				cp := *prev
 				cp.Servers = append([]config.ServerConfig(nil), prev.Servers...)
 				sv := &cp.Servers[cr.intn(len(cp.Servers))]
-				switch cr.intn(3) {
+				switch cr.intn(5) {
+				case 3, 4:
+					// the server loses the LAST location of its list, nothing else changes
+					if len(sv.Locations) > 1 {
+						sv.Locations = append([]string(nil), sv.Locations[:len(sv.Locations)-1]...)
+						stat("location-list-shortened")
+					}
 				case 0:
 					sv.CompressContentTypeFilter = map[string]string{"": "text|json", "text|json": "image", "image": "text|json"}[sv.CompressContentTypeFilter]
 				case 1:
@@ -244,7 +256,9 @@ func suiteReconf(r *rng, n int) {
 		emit("reconf", "end")
 	}
 	applyLikeMainUpdate(&config.PikeConfig{})
-	reconfListen()
+	if optFlag != "nolisten" {
+		reconfListen()
+	}
 	applyLikeMainUpdate(&config.PikeConfig{})
 }
 
@@ -324,4 +338,19 @@ func reconfListen() {
 	// configured before: 11110, configured after: 10001
 	emit("reconf", "listen", "11110", before, "10001", after)
 	stat("listen-histories")
+	// an address that is busy when its server is configured: the bind fails at that update; once the address is
+	// free the next update binds it (what a fresh start with the same configuration does)
+	busy := freeAddr()
+	hold, herr := net.Listen("tcp", busy)
+	withBusy := append(append([]string(nil), final...), busy)
+	applyLikeMainUpdate(mk(withBusy))
+	_ = server.Start()
+	if herr == nil {
+		hold.Close()
+	}
+	applyLikeMainUpdate(mk(withBusy))
+	_ = server.Start()
+	addrs = []string{busy}
+	emit("reconf", "listenretry", b2s(herr == nil), observe("1", 5*time.Second))
+	stat("listen-retry-histories")
 }
